@@ -67,7 +67,10 @@ def initStack (g : Cfg) (b : Nat) : List Entry :=
 def findPath (g : Cfg) (b e : Nat) (fuel : Nat) : Res := search g e fuel [] (initStack g b)
 
 /-- number of pops after which the loop has certainly ended (see `search_terminates`). -/
-def fuelBound (g : Cfg) : Nat := (g.map (fun blk => blk.succs.length + 1)).sum + g.length + 1
+def totalWeight (g : Cfg) : Nat :=
+  ((List.range g.length).map (fun v => (succsOf g v).length + 1)).sum
+
+def fuelBound (g : Cfg) : Nat := 2 * totalWeight g + 1
 
 /-- structural well-formedness guaranteed by the dumper: successors are block indices. -/
 def wf (g : Cfg) : Bool := g.all (fun blk => blk.succs.all (· < g.length))
@@ -211,11 +214,11 @@ def dropEdge (tbl : CondTable) (cs : List Cond) : Bool :=
 
 /-- remove every edge `a → c`. -/
 def cutEdge (g : Cfg) (a c : Nat) : Cfg :=
-  g.zipIdx.map (fun (blk, i) => if i = a then { blk with succs := blk.succs.filter (· ≠ c) } else blk)
+  g.mapIdx (fun i blk => if i = a then { blk with succs := blk.succs.filter (· ≠ c) } else blk)
 
 /-- the blocks whose `If` tests the value `v`. -/
 def ifBlocksOf (g : Cfg) (v : Nat) : List Nat :=
-  (g.zipIdx.filter (fun (blk, _) => blk.isIf && blk.cond == v)).map (·.2)
+  (List.range g.length).filter (fun a => (blockOf g a).isIf && (blockOf g a).cond == v)
 
 /-- the branch edge a condition `(pol, v)` stands for, for the `If` in block `a`:
 successor 0 when positive, successor 1 when negative; `none` if the two successors coincide
@@ -228,7 +231,7 @@ def branchTarget (g : Cfg) (a : Nat) (pol : Bool) : Option Nat :=
 /-- `mustPassDec g sb db a c`: after removing the edge `a → c`, `db` can no longer be reached from
 `sb` by a non-empty path. -/
 def mustPassDec (g : Cfg) (sb db a c : Nat) : Bool :=
-  findPath (cutEdge g a c) sb db (fuelBound g) == .notFound
+  findPath (cutEdge g a c) sb db (fuelBound (cutEdge g a c)) == .notFound
 
 /-- a condition `(pol, v)` must-passes: some `If` on `v` has its `pol` edge on every path. -/
 def condMustPass (g : Cfg) (sb db : Nat) (c : Cond) : Bool :=
